@@ -159,6 +159,14 @@ class BalWorld(object):
     for n in nodes:
       if n.channel is r.sink:
         chosen = n
+    ss = self.serverset
+    if chosen is not None and ss.loaded and ss.queue.empty() and ss.busy == 0 \
+        and str(r.sink.endpoint) not in set(self.keys[i] for i in self.sent):
+      # every notification has been delivered and this endpoint is not a member
+      REC.violation('C04', 'request_to_removed_member',
+                    'request %s was dispatched to %r; that endpoint left the server set and the balancer still holds a node for it' % (
+                      r.call_id, r.sink), {'in_heap': True})
+      return
     if chosen is None:
       if str(r.sink.endpoint) in set(str(e) for e in self.lb._servers):
         # still a member: the aperture contracted (in its on-get hook) after
@@ -230,6 +238,11 @@ class BalWorld(object):
     except Exception:
       return False
 
+  def lb_open(self):
+    # the balancer's own open/closed state; its public `state` is the maximum
+    # over its members' channel states, i.e. Closed as soon as one member is down
+    return getattr(self.lb, '_state', self.lb.state) == ChannelState.Open
+
   def settle(self):
     lb = self.lb
     if self.op_in_progress():
@@ -258,11 +271,19 @@ class BalWorld(object):
       if out > 0:
         REC.probe('removed_while_loaded')
     ss = self.serverset
-    drained = ss.loaded and ss.queue.empty() and ss.busy == 0 and lb.state == ChannelState.Open
+    drained = ss.loaded and ss.queue.empty() and ss.busy == 0 and self.lb_open()
     heap_eps = [str(n.endpoint) for n in self.heap_nodes()]
     idle_eps = [str(e) for e in getattr(lb, '_idle_endpoints', [])]
     if drained:
       want = set(self.keys[i] for i in self.sent)
+      # channels of endpoints that are not members any more: closed once idle
+      for sk in self.provider.sinks:
+        if str(sk.endpoint) not in want and sk.close_calls == 0 and self.outstanding(sk) == 0 \
+            and not any(n.channel is sk for n in self.nodes if n.index < 0):
+          REC.violation('C04', 'removed_member_not_closed',
+                        'endpoint %s is not in the server set, its channel %r has nothing outstanding and was never closed' % (
+                          sk.endpoint, sk), {'kind': self.kind, 'by_model': True})
+          sk.close_calls = -1
       have = set(str(e) for e in lb._servers)
       if have != want:
         REC.violation('C05', 'servers_mismatch',
@@ -497,6 +518,8 @@ class BalWorld(object):
             REC.probe('duplicate_join')
           elif self.provider.by_endpoint.get(self.keys[i]):
             REC.probe('rejoin')
+            if any(str(n.endpoint) == self.keys[i] for n in getattr(self.lb, '_draining', ())):
+              REC.probe('rejoin_while_draining')
           self.sent.add(i)
           self.serverset.join(m)
           REC.fault('member_join')
@@ -532,7 +555,7 @@ class BalWorld(object):
 
   def saturation_probe(self):
     lb = self.lb
-    if lb.state != ChannelState.Open or not (self.serverset.loaded and self.serverset.queue.empty()):
+    if not self.lb_open() or not (self.serverset.loaded and self.serverset.queue.empty()):
       return
     want = set(self.keys[i] for i in self.sent)
     # make every member's channel healthy so that only membership matters
@@ -548,7 +571,9 @@ class BalWorld(object):
     gevent.sleep(0.5)
     hit = set()
     for s in self.provider.sinks:
-      if len(s.requests) > before.get(id(s), 0):
+      # a request handed to a channel that is closed is refused by it at once:
+      # that member did not serve
+      if len(s.requests) > before.get(id(s), 0) and s.closed_at is None and s.died_at is None:
         hit.add(s.endpoint)
     REC.probe('saturation_probe')
     if hit != want:
